@@ -54,6 +54,7 @@ type tap struct {
 	log     []hookEv
 	symIdx  map[*symbol.Symbol]int // also symbols that have been replaced meanwhile
 	next    int
+	window  map[portKey]bool // per oracle view: in-ports whose first request passed before the hooks were attached
 }
 
 func (t *tap) pckID(p *packet.Packet) int {
@@ -274,6 +275,72 @@ func withoutPorts(t *tap, sess int, rows []frameRow, drop []portKey) (*tap, []fr
 	return &t2, out
 }
 
+// windowView: the open-hook window under the REPAIRED agent (fix 5a92fce). InPort.Open publishes a
+// new reader before the open hooks have run, so the process's FIRST packet of an in-port can pass
+// before the agent's packet hooks (and the harness's own, attached just before them) are on. The
+// agent then has no frame for that request and skips its answer; every recorded frame pairs a
+// request with its own answer. This is the one situation in which a request without a frame is
+// accepted: the first events of the process on that port – the answer A1, and the request R1 if the
+// harness's hook did see it – appear in no frame; they are taken out of the view the oracles judge,
+// and the port is marked so that one request less is expected there.
+func windowView(t *tap, sess int, rows []frameRow, lax bool) (*tap, []portKey) {
+	inFrames := map[portKey]map[int]bool{}
+	nfr := map[portKey]int{}
+	for _, r := range rows {
+		if inFrames[r.key] == nil {
+			inFrames[r.key] = map[int]bool{}
+		}
+		inFrames[r.key][r.in], inFrames[r.key][r.out] = true, true
+		nfr[r.key]++
+	}
+	dropReq, dropAns := map[portKey]bool{}, map[portKey]bool{}
+	var hit []portKey
+	for _, key := range t.keys {
+		if key.in < 0 {
+			continue
+		}
+		var reqs, answs []int
+		for _, e := range t.log {
+			if e.sess == sess && e.key == key {
+				if e.inb {
+					reqs = append(reqs, e.pck)
+				} else {
+					answs = append(answs, e.pck)
+				}
+			}
+		}
+		switch {
+		case len(answs) == len(reqs)+1 && !inFrames[key][answs[0]]:
+			dropAns[key] = true
+			hit = append(hit, key)
+		case !lax && len(answs) == len(reqs) && len(reqs) >= 1 && nfr[key] == len(reqs)-1 && !inFrames[key][reqs[0]] && !inFrames[key][answs[0]]:
+			dropReq[key], dropAns[key] = true, true
+			hit = append(hit, key)
+		}
+	}
+	if len(hit) == 0 {
+		return t, nil
+	}
+	t2 := *t
+	t2.window = map[portKey]bool{}
+	for _, k := range hit {
+		t2.window[k] = true
+	}
+	t2.log = nil
+	for _, e := range t.log {
+		if e.sess == sess && e.inb && dropReq[e.key] {
+			dropReq[e.key] = false
+			continue
+		}
+		if e.sess == sess && !e.inb && dropAns[e.key] {
+			dropAns[e.key] = false
+			continue
+		}
+		t2.log = append(t2.log, e)
+	}
+	return &t2, hit
+}
+
 // dedupAdjacent drops a frame that repeats its predecessor on the same port (a symbol loaded twice
 // has two sets of hooks on the endpoints of processes that came later: every frame is recorded twice).
 func dedupAdjacent(rows []frameRow) []frameRow {
@@ -373,6 +440,9 @@ func framesOracle(t *tap, sess int, rows []frameRow, sr *sessRun) (class, what s
 		}
 		for _, key := range t.keys {
 			want := sr.ip.reqs[portReq{key.sym, key.in < 0, t.names[key]}]
+			if t.window[key] {
+				want-- // the request that passed before the hooks were attached has no frame
+			}
 			if got := len(perPort[key]); got != want {
 				return "frame-count-vs-requests", fmt.Sprintf("port %v (%s): %d requests passed the port but the agent holds %d frames for it (its request hook fired %d times)", key, t.names[key], want, got, hooks[key])
 			}
@@ -434,7 +504,7 @@ func framesOracle(t *tap, sess int, rows []frameRow, sr *sessRun) (class, what s
 				// reader's Receive answers the oldest delivered request – so the k-th emission on
 				// "out" (value − c) identifies the k-th delivered request and the k-th packet leaving
 				// through the in-port is its answer, whatever order the inbound hooks ran in
-				if key.in < 0 {
+				if key.in < 0 || t.window[key] {
 					continue
 				}
 				c := sr.s.f.spec.nodes[key.sym].c
@@ -672,26 +742,21 @@ func framesCaseBody(c *lib.Ctx, fs flowSpec, nsess int, ops []op, early bool, sc
 			continue
 		}
 		rows := t.readFrames(f, agent, sr.s.proc)
-		tv := t // the tap as the oracles see it (without the ports on which the known finding struck)
-		window := openHookWindow(t, si, rows, lax)
+		tv, window := windowView(t, si, rows, lax)
 		if len(window) > 0 {
-			for _, row := range rows {
-				trace = append(trace, fmt.Sprintf("# frame sess=%d port=%v(%s) in=%s out=%s", si, row.key, t.names[row.key], pid(row.in), pid(row.out)))
-			}
+			c.Hit("frames-open-hook-window-hit")
 			var names []string
 			for _, k := range window {
 				names = append(names, fmt.Sprintf("%v (%s)", k, t.names[k]))
 			}
-			*fails = append(*fails, lib.OracleFail{Class: "open-hook-window", What: fmt.Sprintf("%v: process %d, in-port %s: the first request passed before the agent's packet hooks were attached (InPort.Open publishes the reader before the open hooks have run); it has no frame, its answer is an orphan frame and every later frame of the port pairs request k+1 with answer k", fs, si, strings.Join(names, ", ")), Replay: replay()})
-			c.Hit("frames-open-hook-window-hit")
-			tv, rows = withoutPorts(t, si, rows, window)
+			trace = append(trace, fmt.Sprintf("# open-hook window: the first request of process %d on in-port %s passed before the agent's packet hooks were attached; it has no frame (accepted), its answer is not recorded", si, strings.Join(names, ", ")))
 		}
 		if lax {
 			// frames recorded twice (a symbol loaded twice) count once; a port the agent holds nothing
 			// for (unloaded before the process came) is not compared; the number of frames is not
 			rows = dedupAdjacent(rows)
 			for _, k := range tv.keys {
-				if col := showCol(rows, k); col != "0" {
+				if col := showCol(rows, k); col != "0" && !tv.window[k] {
 					sc.Op(fmt.Sprintf("col %d %v", si, k), col)
 				}
 			}
@@ -700,7 +765,9 @@ func framesCaseBody(c *lib.Ctx, fs flowSpec, nsess int, ops []op, early bool, sc
 				sc.Op(fmt.Sprintf("nframes %d", si), fmt.Sprint(len(rows)))
 			}
 			for _, k := range tv.keys {
-				sc.Op(fmt.Sprintf("col %d %v", si, k), showCol(rows, k))
+				if !tv.window[k] {
+					sc.Op(fmt.Sprintf("col %d %v", si, k), showCol(rows, k))
+				}
 			}
 		}
 		for _, row := range rows {
@@ -714,7 +781,7 @@ func framesCaseBody(c *lib.Ctx, fs flowSpec, nsess int, ops []op, early bool, sc
 		}
 		if class == "" && !lax {
 			// watcher events: one for every request and one for every answer that passed an observed port
-			want := -len(window) // (the unrecorded first request of a window port was shown to nobody)
+			want := -2 * len(window) // (neither the unrecorded first request of a window port nor its answer was shown to anybody)
 			for _, k := range t.keys {
 				want += 2 * sr.ip.reqs[portReq{k.sym, k.in < 0, t.names[k]}]
 			}
